@@ -350,7 +350,36 @@ func c14r1(c *core.Ctx) {
 // c14r2: delegation passes the whole id list.
 func c14r2(c *core.Ctx) {
 	m := c.M
-	internal := map[string]bool{"World.newEntity": true, "World.newEntities": true, "World.add": true, "World.remove": true, "World.exchange": true, "World.exchangeBatch": true, "removeBatch": true}
+	a := GetAnchors(c)
+	opsF, _ := internalOps(c, a)
+	internal := map[string]bool{}
+	for f := range opsF {
+		internal[f.Name] = true
+	}
+	// package-level helpers that forward an id list to an internal operation (removeBatch)
+	for _, f := range m.Funcs {
+		if f.Recv != "" || f.Sig == nil {
+			continue
+		}
+		core.InspectNoLits(f.Body, func(n ast.Node) bool {
+			if call, ok := n.(*ast.CallExpr); ok {
+				if k, cal, _ := m.Callee(call); k == core.CallStatic && opsF[cal] {
+					for _, arg := range call.Args {
+						if id, ok := ast.Unparen(arg).(*ast.Ident); ok {
+							if v, ok := m.Info.ObjectOf(id).(*types.Var); ok {
+								if _, isP := paramIndexOf(f, v); isP {
+									if sl, ok := v.Type().(*types.Slice); ok && core.NamedName(sl.Elem()) == "ID" {
+										internal[f.Name] = true
+									}
+								}
+							}
+						}
+					}
+				}
+			}
+			return true
+		})
+	}
 	for _, f := range m.AllFuncs() {
 		recv := f.Recv
 		_, arity, ok := genFamily(recv)
@@ -395,8 +424,14 @@ func c14r2(c *core.Ctx) {
 				if okArg && s != "nil" {
 					isRemoveField := strings.HasSuffix(fieldKeyOf(m, arg), ".remove")
 					isRemovePar := pname == "rem" || pname == "remove"
-					if cal.Name == "removeBatch" || cal.Name == "World.remove" {
-						// Map removes its own ids; Exchange removes its remove list
+					onlyIDParam := 0
+					for pi := 0; pi < cal.Sig.Params().Len(); pi++ {
+						if sl2, ok := cal.Sig.Params().At(pi).Type().(*types.Slice); ok && core.NamedName(sl2.Elem()) == "ID" {
+							onlyIDParam++
+						}
+					}
+					if onlyIDParam == 1 && (isRemovePar || pname == "ids") && (strings.Contains(strings.ToLower(cal.Name), "remove")) {
+						// a pure removal: Map removes its own ids; Exchange removes its remove list
 						okArg = strings.HasPrefix(recv, "Exchange") == isRemoveField
 					} else if isRemoveField != isRemovePar {
 						okArg = false
